@@ -313,7 +313,7 @@ def c01_skeleton(feat: int, t0: int, n0: int, n1: int) -> bool:
         rows.insert(0, rows.pop(3))
     # itext ids (xpaths) are dict keys of Survey._translations: names on the path stay concrete with itext
     fname = "data9" if feat == 1 else "d" + N
-    survey, _w, _js = build_survey(wb, form_name=fname)
+    survey, _w, _js = build_survey(wb, form_name=fname, prefill=True)
     root = survey.xml()
     if not _skeleton_ok(root):
         return False
